@@ -107,6 +107,27 @@ def run(ctx, rep):
     # ------------------------------------------------------------------ R17.2
     K.share(ctx, rep, "c16", lambda o: o.rule == "R16.4" and "shut down and untracked" in o.key, "R17.2", floor=1)
     K.share(ctx, rep, "c16", lambda o: o.rule == "R16.2" and "_drop_connection" in o.key, "R17.2", floor=1)
+    K.share(ctx, rep, "c11", lambda o: o.rule == "R11.3" and ("serve_all" in o.key or "serve_threaded" in o.key), "R17.2", floor=2)
+    fdc = ctx.func(SRV + ".ThreadPoolServer._drop_connection")
+    gdc = ctx.cfg(fdc, raises=quiet_logging_raises)
+    rep.analysed(fdc, gdc)
+    domdc = Q.dominators(gdc)
+    fdp = A.params(fdc.node)[1]
+    untrack = [n for n in gdc.live if n.ast is not None and n.kind == "stmt" and (
+        (isinstance(n.ast, ast.Delete) and "self.fd_to_conn[%s]" % fdp in A.src(n.ast)) or
+        A.find_calls(n.ast, "self.fd_to_conn.pop"))]
+    closes_ = [n for n in gdc.live if n.ast is not None and n.kind == "stmt" and any(
+        isinstance(c.func, ast.Attribute) and c.func.attr == "close" for c in A.calls(n.ast))]
+    oku = bool(untrack) and bool(closes_)
+    # the table entry must be gone before the descriptor number is released by close(): otherwise a client accepted in
+    # between re-uses the number and the late removal deletes the new client's entry
+    reach_after_close = Q.reach(closes_, include_starts=False) if closes_ else set()
+    after = [u for u in untrack if u in reach_after_close]
+    rep.ob("R17.2", "ThreadPoolServer._drop_connection: the descriptor is untracked before its connection is closed",
+           oku and not after, "the removal from fd_to_conn precedes conn.close() on every path" if oku and not after else
+           "fd_to_conn[fd] is removed after conn.close(): closing frees the descriptor number, a client accepted meanwhile is "
+           "registered under the same number and the late removal deletes the new client's entry (never served, never closed)",
+           fdc.loc)
     fk = ctx.func(SRV + ".ForkingServer._accept_method")
     g = ctx.cfg(fk, raises=quiet_logging_raises)
     rep.analysed(fk, g)
